@@ -229,6 +229,16 @@ pub fn run_pipeline(
     }
 
     if cl.is_single_and_builtin() {
+        // a single builtin runs in the shell itself and does not use the
+        // capture pipes: release them.
+        if let Some(fds) = fds_capture_stdout {
+            libs::close(fds.0);
+            libs::close(fds.1);
+        }
+        if let Some(fds) = fds_capture_stderr {
+            libs::close(fds.0);
+            libs::close(fds.1);
+        }
         return (false, cmd_result);
     }
 
